@@ -228,6 +228,8 @@ impl Monitor for C01 {
         vec![
             Stream::new("forced", (forced_docs().len() * ROUTES.len()) as u64),
             Stream::new("api", scaled(n, budget)),
+            Stream::new("via-parse", scaled(n / 4, budget)),
+            Stream::new("via-manipulation", scaled(n / 8, budget)),
         ]
     }
     fn rule(&self) -> String {
@@ -238,7 +240,7 @@ impl Monitor for C01 {
             .to_string()
     }
     fn floors(&self, _tier: Tier) -> Vec<(&'static str, u64)> {
-        vec![("serialised", 1000), ("reparsed", 1000), ("feature.namespaced", 100), ("feature.fragment", 100)]
+        vec![("serialised", 1000), ("reparsed", 1000), ("feature.namespaced", 100), ("feature.fragment", 100), ("trees_obtained_by_parsing", 1000), ("trees_obtained_by_manipulation", 1000)]
     }
     fn assumptions(&self) -> Vec<String> {
         vec![
@@ -247,6 +249,66 @@ impl Monitor for C01 {
         ]
     }
     fn run_case(&self, stream: usize, idx: u64, rng: &mut Rng, ctx: &mut Ctx) {
+        if stream == 2 {
+            // trees obtained by parsing a random spelling
+            let cfg = gen_cfg(rng);
+            let doc = gen::gen_document(rng, &cfg);
+            if !crate::render::renderable(&doc) {
+                ctx.count("outside_domain");
+                return;
+            }
+            let wf = gen::is_wf_document(&doc);
+            let opts = crate::render::RenderOpts { fragment: !wf, allow_decl: wf, allow_bom: false, ..Default::default() };
+            let r = crate::render::render(&doc, &mut crate::render::RandomChoices(rng), &opts);
+            let mut xot = Xot::new();
+            let parsed = guard(|| if wf { xot.parse(&r.text) } else { xot.parse_fragment(&r.text) });
+            if let Ok(Ok(d)) = parsed {
+                if let Ok(t) = snap_guarded(&xot, d) {
+                    if gen::c01_domain(&t).is_ok() {
+                        ctx.count("in_domain");
+                        ctx.count("trees_obtained_by_parsing");
+                        if t.count() >= 3 {
+                            ctx.nontrivial(t.structural_hash());
+                        }
+                        roundtrip_check(ctx, &mut xot, d, &t, "parsed");
+                    }
+                }
+            }
+            return;
+        }
+        if stream == 3 {
+            // trees obtained by manipulation: a random forest, 1-10 precondition-satisfying calls, every tree that
+            // is still inside the representable domain afterwards
+            use crate::driver::{exec, Forest, OpGen};
+            let mut f = match guard(|| Forest::random(rng, false, true)) {
+                Ok(Ok(f)) => f,
+                _ => return,
+            };
+            let gen_ops = OpGen { legal_only: true, allow_consolidation_toggle: false, allow_unmodelled: true };
+            for _ in 0..rng.range(1, 10) {
+                if let Ok(Some(op)) = guard(|| gen_ops.gen(&f, rng)) {
+                    let _ = exec(&mut f.xot, &op);
+                }
+            }
+            let roots: Vec<xot::Node> = f.live_handles().into_iter().filter(|n| f.xot.parent(*n).is_none() && f.xot.is_document(*n)).collect();
+            for r in roots {
+                if let Ok(t) = snap_guarded(&f.xot, r) {
+                    if gen::c01_domain(&t).is_ok() && !t.children.is_empty() {
+                        ctx.count("in_domain");
+                        ctx.count("trees_obtained_by_manipulation");
+                        if t.count() >= 3 {
+                            ctx.nontrivial(t.structural_hash());
+                        }
+                        let mut x = std::mem::take(&mut f.xot);
+                        roundtrip_check(ctx, &mut x, r, &t, "manipulated");
+                        f.xot = x;
+                    } else {
+                        ctx.count("outside_domain");
+                    }
+                }
+            }
+            return;
+        }
         let (doc, route) = if stream == 0 {
             let docs = forced_docs();
             let d = docs[(idx as usize) / ROUTES.len()].clone();
